@@ -1497,7 +1497,7 @@ func (enc *VP8Encoder) initPassStats() *passStats {
 	// Clamp quality to [qmin, qmax] range (matching C behavior).
 	qmin := float64(enc.config.QMin)
 	qmax := float64(enc.config.QMax)
-	if qmax < 0 { // only negative values stand for the default; 0 is a legal cap
+	if qmax <= 0 {
 		qmax = 100.0
 	}
 	q := float64(enc.config.Quality)
